@@ -21,14 +21,16 @@
     * `not`, unary minus, `and`, `or`, `?:`, the ternary, `==`, `!=`, `+` (integer, float, string
       concatenation — of any printable values, lists included), `-`, `*`, `/`, `%`; `< > <= >=` in
       `eval_refines_spec_ordering` (`ordExact` is a theorem);
-    * the builtins isNonnull, length, strContains, hasData, range, min, max (`Lemmas/FuncRefine.lean`).
+    * the builtins isNonnull, length, strContains, hasData, range, min, max, keys (sorted, on both sides) and
+      augmentMap (`Lemmas/FuncRefine.lean`).
 
   Still outside — why the theorems keep `_partial`:
-    * `$ij` and variables named like loop helpers (`x__index`, `x__lastIndex`);
-    * the loop functions index / isFirst / isLast (they read the loop frames; the specification would have to
-      guard loop lengths beyond int64, and binders named like helpers would have to be excluded);
-    * keys and augmentMap: the interpreter's entry ORDER differs from the specification's (insertion order
-      against sorted / right-first), and the value relation here is entry-by-entry;
+    * `$ij`, and names ending in a loop's bookkeeping suffix (`x.index`, `x.lastIndex` — no variable name
+      contains a '.', so this excludes nothing a parser produces);
+    * the loop functions index / isFirst / isLast: the specification gives `index($x)` as the integer `i`
+      whatever its size, the interpreter keeps it as an int64 — the two differ for a loop over more than
+      2^63 items, and the specification's clause is pinned by Props/C04c (`hspec`); it would need a guard
+      on the loop length there;
     * round / floor / ceiling: they need exactness lemmas about the soft-float (decode ∘ round-to-nearest on
       integers below 2^53, exact products by powers of ten) that are not proved; randomInt (a PRNG);
     * a map literal that repeats a key.
@@ -47,7 +49,7 @@ def opOk (ord : Bool) : BinOp → Bool
   | .lt | .le | .gt | .ge => ord
   | _ => true
 
-/-- is `k` the name of a loop helper (`x__index`, `x__lastIndex`)?  The interpreter keeps those in the loop's
+/-- is `k` the name of a loop helper (`x.index`, `x.lastIndex`)?  The interpreter keeps those in the loop's
     frame as ordinary bindings; the specification keeps them apart (they are reachable through `index` /
     `isFirst` / `isLast` only), so the fragment does not read variables of such names. -/
 def isHelper (k : Bytes) : Bool := sIndexSuffix.isSuffixOf k || sLastIndexSuffix.isSuffixOf k
@@ -895,5 +897,22 @@ example : ∃ mv n', evalE m1 fn2 7 = .ok mv n' ∧ absV mv = .list [.int 0, .in
 def fn3 : Expr := .func 0 fMin (.cons (.func 0 fLength (.cons (.dataRef 0 [120] (.cons (.key 0 false [97]) .nil)) .nil)) (.cons (.int 0 7) .nil))
 example : ∃ mv n', evalE m1 fn3 7 = .ok mv n' ∧ absV mv = .int 2 :=
   (eval_refines_spec_partial rel1 fn3 (by decide) 7).1 _ (by rfl)
+
+/-! `keys(augmentMap(['b': 1, 'a': 2], ['c': 3, 'a': 4]))` = ['a', 'b', 'c'], `augmentMap(…).a` … right wins -/
+def mapBA : Expr := .map 0 (.cons [97] (.int 0 2) (.cons [98] (.int 0 1) .nil))
+def mapCA : Expr := .map 0 (.cons [97] (.int 0 4) (.cons [99] (.int 0 3) .nil))
+def fn4 : Expr := .func 0 fKeys (.cons (.func 0 fAugmentMap (.cons mapBA (.cons mapCA .nil))) .nil)
+example : ∃ mv n', evalE m1 fn4 7 = .ok mv n' ∧ absV mv = .list [.str [97], .str [98], .str [99]] :=
+  (eval_refines_spec_partial rel1 fn4 (by decide) 7).1 _ (by rfl)
+example : ∃ mv n', evalE m1 (.func 0 fAugmentMap (.cons mapBA (.cons mapCA .nil))) 7 = .ok mv n' ∧
+    absV mv = .map [([97], .int 4), ([98], .int 1), ([99], .int 3)] :=
+  (eval_refines_spec_partial rel1 _ (by decide) 7).1 _ (by rfl)
+
+/-! `$x['']` looks the key "" up (undefined here); `$x.a[-1]` is an index outside the list: undefined -/
+example : ∃ mv n', evalE m1 (.dataRef 0 [120] (.cons (.expr 0 false (.str 0 [] [])) .nil)) 7 = .ok mv n' ∧ absV mv = .undefined :=
+  (eval_refines_spec_partial rel1 _ (by decide) 7).1 _ (by rfl)
+example : ∃ mv n', evalE m1 (.dataRef 0 [120] (.cons (.key 0 false [97]) (.cons (.index 0 false (-1)) .nil))) 7 = .ok mv n' ∧
+    absV mv = .undefined :=
+  (eval_refines_spec_partial rel1 _ (by decide) 7).1 _ (by rfl)
 
 end SoyVerif.Props.C01
